@@ -34,6 +34,7 @@ PROP_KINDS = {
     "tint": ("tuple[int, ...]", ["()", "(1, 2)"], [[], [1, 2]]),
 }
 CHILD_KINDS = {
+    "late": "GLate | None",  # forward reference to a class that is defined only later in the run
     "child": "GLeaf",
     "opt": "GLeaf | GFalsy | None",
     "union": "GLeaf | GOther",
@@ -210,6 +211,26 @@ class World:
         self.src = src
         return "ok"
 
+    def op_early(self, op: dict[str, Any]) -> str:
+        """Use of a class while a forward reference in its annotations cannot be resolved yet: whatever happens now
+        (NameError is fine) must not influence what the accessors return once the reference exists."""
+        C = self.cls(op["cls"])
+        try:
+            if op["what"] == "get_child_fields":
+                C.get_child_fields()
+            else:
+                list(C.get_property_fields())
+            out = "ok"
+        except Exception as e:  # noqa: BLE001
+            out = "raised:" + type(e).__name__
+        self.stats.probes["early_use_" + out.split(":")[0]] += 1
+        return out
+
+    def op_define_late(self, op: dict[str, Any]) -> str:
+        src = "@dataclass(frozen=True)\nclass GLate(ASTNode):\n    z: int = 0\n"
+        exec(compile(src, "<c12 generated>", "exec", dont_inherit=True), self.mod.__dict__)
+        return "ok"
+
     def op_redefine(self, op: dict[str, Any]) -> str:
         """The hierarchy is defined again in the same module (class factory called twice, reloaded notebook cell) with
         changed field lists: same module and qualified names, different classes."""
@@ -274,6 +295,8 @@ class World:
         if "falsy" in v:
             self.stats.probes["falsy_child_used"] += 1
             return self.mod.GFalsy(v["falsy"])
+        if "late" in v:
+            return self.mod.GLate(v["late"])
         if "tuple" in v:
             return tuple(self.mkchild(x) for x in v["tuple"])
         raise HarnessError(str(v))
@@ -312,6 +335,26 @@ class World:
             self.inst_cls[op["inst"]] = cname
             if op.get("check", True):
                 self.check_instance(o, cname, fl, "instantiate", sample=True)
+            return "ok"
+        if what == "replace":
+            # a functional update through ASTNode.replace: the result (same id when only non-comparable fields
+            # change) is a different node and every accessor must describe IT
+            src = self.inst.get(op.get("inst", ""))
+            if src is None:
+                raise SkipOp("no instance")
+            kw = {}
+            for f in fl:
+                if f["name"] in op["vals"]:
+                    v = op["vals"][f["name"]]
+                    kw[f["name"]] = tuple(v) if f["kind"] == "tint" else v
+            try:
+                o = src.replace(**kw)
+            except Exception as e:  # noqa: BLE001
+                raise self.viol("C12.9 construction-raised", f"C12.9:replace:{type(e).__name__}", f"replace() on a {cname} raised {type(e).__name__}: {e}", src=self.src) from None
+            self.inst[op["out"]] = o
+            self.inst_cls[op["out"]] = cname
+            self.check_instance(o, cname, fl, "replace", sample=True)
+            self.stats.probes["replace_then_accessors"] += 1
             return "ok"
         if what == "get_property_fields":
             self.mark(cname)
@@ -457,6 +500,7 @@ class Gen:
         self.w = w
         self.rng = rng
         self.nf = 0
+        self.late = False
 
     def r(self, n: str):
         return self.rng.s(n)
@@ -492,10 +536,14 @@ class Gen:
             if r.random() < 0.15 and not kw_only_cls and f["default"] is not None:
                 f["kw_only"] = True
             return f
-        kind = r.choice(list(CHILD_KINDS))
+        kind = r.choice([k for k in CHILD_KINDS if k != "late" or self.late])
         if name.startswith("_"):
             name = "c" + name[1:]
         f = {"name": name, "kind": kind, "init": True, "compare": True, "default": None, "quoted": r.random() < 0.3}
+        if kind == "late":
+            f["quoted"] = True
+            f["default"] = "None"
+            return f
         if not kw_only_cls or r.random() < 0.4:
             f["default"] = {"child": 'GLeaf("d")', "opt": "None", "union": "GOther(1)", "tuple": "()", "fixed": '(GLeaf("p"), GOther(2))'}[kind]
             if kind in ("child", "union", "fixed"):
@@ -556,6 +604,8 @@ class Gen:
                 out[f["name"]] = {"tuple": [r.choice([{"leaf": "t"}, {"falsy": "f"}, {"leaf": "tt"}]) for _ in range(n)]}
             elif k == "fixed":
                 out[f["name"]] = {"tuple": [{"leaf": "p"}, {"other": 5}]}
+            elif k == "late":
+                out[f["name"]] = r.choice([None, {"late": 1}])
         return out
 
     def run(self) -> None:
@@ -569,8 +619,14 @@ class Gen:
             op["step"] = step
             w.step(op)
 
+        self.late = r.random() < 0.3
         do({"op": "define", "hier": self.hierarchy()})
         names = [c["name"] for c in w.h["classes"]]
+        if self.late:
+            for cn in names:
+                if r.random() < 0.6:
+                    do({"op": "early", "cls": cn, "what": r.choice(["get_child_fields", "get_property_fields"])})
+            do({"op": "define_late"})
         # schedule of first uses: a permutation biased to base-before-sub / sub-before-base / sibling-between
         mode = r.choice(["base-first", "sub-first", "random", "random"])
         order = list(names)
@@ -606,6 +662,16 @@ class Gen:
             flat.insert(r.randint(0, len(flat)), {"op": "bare"})
         for op in flat:
             do(op)
+        # functional updates of property values (non-comparable ones keep the id)
+        for iname in list(w.inst)[:3]:
+            cn = w.inst_cls[iname]
+            props = [f for f in linear(w.h, cn) if f["kind"] in PROP_KINDS and f["init"]]
+            if not props or r.random() < 0.4:
+                continue
+            pick = [f for f in props if not f["compare"]] or props
+            f = r.choice(pick)
+            do({"op": "event", "cls": cn, "what": "to_properties_dict", "inst": iname})
+            do({"op": "event", "cls": cn, "what": "replace", "inst": iname, "out": iname + "r", "vals": {f["name"]: r.choice(PROP_KINDS[f["kind"]][2])}})
         # second instances (now every accessor is specialised) and the exhaustive flag cube
         for cn in names:
             if r.random() < 0.6:
